@@ -47,7 +47,7 @@ func HOpenAPI() {
 	oa, err := openapi.NewOpenAPI(j.Catalog())
 	if err != nil {
 		vReach("export-error")
-		vObserve("export-error", err.Error())
+		vObserve("export-error") // not the text: a recovered run-time error names types the way the run-time does
 		return
 	}
 	vAssert(oa != nil, "c17-neither-error-nor-document")
